@@ -74,6 +74,8 @@ pub enum Ev {
     Get(usize, usize),
     /// put (seq 2) and get of a mutable key on the same node in the same instant
     PutGet(usize, usize),
+    /// find_node(target of the key) and a get of the key on the same node in the same instant
+    GetJoin(usize, usize),
 }
 
 impl Ev {
@@ -88,6 +90,7 @@ impl Ev {
             Ev::Put(w, k) => format!("EPut {}%nat {}%nat", w, k),
             Ev::Get(r, k) => format!("EGet {}%nat {}%nat", r, k),
             Ev::PutGet(r, k) => format!("EPutGet {}%nat {}%nat", r, k),
+            Ev::GetJoin(r, k) => format!("EGetJoin {}%nat {}%nat", r, k),
         }
     }
 }
@@ -157,6 +160,20 @@ fn run_event(net: &mut Net, ev: &Ev, seqs: &mut std::collections::HashMap<usize,
             if !net.nodes[*r].up {
                 return (None, holders(net, *key));
             }
+            let rx = start_get(net, *r, *key);
+            net.quiesce();
+            (Some(rx.found(net, *key, i64::MAX)), holders(net, *key))
+        }
+        Ev::GetJoin(r, key) => {
+            if !net.nodes[*r].up {
+                return (None, holders(net, *key));
+            }
+            let (tx, _keep) = flume::unbounded::<Box<[Node]>>();
+            let target = target_of(*key);
+            net.nodes[*r].m.as_mut().unwrap().actor.verif_get(
+                GetRequestSpecific::FindNode(FindNodeRequestArguments { target }),
+                ResponseSender::ClosestNodes(tx),
+            );
             let rx = start_get(net, *r, *key);
             net.quiesce();
             (Some(rx.found(net, *key, i64::MAX)), holders(net, *key))
@@ -262,7 +279,7 @@ pub fn run_case(r: &mut Rng, evs: Vec<Ev>) -> String {
     let mut seqs = std::collections::HashMap::new();
     for ev in evs.iter() {
         let prev: Vec<usize> = match ev {
-            Ev::Put(_, k) | Ev::Get(_, k) | Ev::PutGet(_, k) => holders(&net, *k),
+            Ev::Put(_, k) | Ev::Get(_, k) | Ev::PutGet(_, k) | Ev::GetJoin(_, k) => holders(&net, *k),
             _ => vec![],
         };
         let (flag, stored) = run_event(&mut net, ev, &mut seqs);
@@ -420,6 +437,22 @@ pub fn generate(seed: u64, scale: usize, which: &str) -> Cases {
             o.push(if with_dead { "joins-with-dead-addresses" } else { "joins" }, run_case(&mut rr, plan));
         }
     } else {
+        // corpus, run first: the known finding F23 (a get that joins a find_node lookup of the same target)
+        for kind in 0..4usize {
+            let mut rr = r.fork();
+            let key = 4 + kind;
+            let plan = vec![
+                Ev::Join(true, vec![]),
+                Ev::Join(true, vec![0]),
+                Ev::Join(true, vec![0]),
+                Ev::Join(true, vec![1]),
+                Ev::Put(1, key),
+                Ev::Get(2, key),
+                Ev::GetJoin(3, key),
+                Ev::Get(3, key),
+            ];
+            o.push("corpus-get-joins-find_node", run_case(&mut rr, plan));
+        }
         for i in 0..(8 * scale) {
             let mut rr = r.fork();
             let ns = [1usize, 2, 3, 5, 8, 12, 16, 20][i % 8];
